@@ -38,8 +38,11 @@ def gen_node(rng, ctr, meta, depth, p_nont, min_entries=0):
     es = []
     for k in keys:
         r = rng.random()
-        if depth < 3 and r < 0.34:
-            es.append([k, gen_node(rng, ctr, meta, depth + 1, p_nont)])
+        if r < 0.34:
+            if depth < 3:
+                es.append([k, gen_node(rng, ctr, meta, depth + 1, p_nont)])
+            else:
+                es.append([k, ["L", ctr.next()]])
         elif r < 0.34 + p_nont:
             z = ctr.next()
             es.append([k, ["T", z, z // 8, list(meta)]])
@@ -226,8 +229,8 @@ def make_case(rng, point, scene, kindname, variant):
         front = "named_apply" if (not has_out or variant % 3 == 1) else "fast"
     else:
         front = ["apply", "fast", "apply"][variant % 3]
-        if inplace and front == "apply" and variant % 2:
-            front = "apply_"
+        if inplace and front == "apply" and variant % 2 and kindname != "lazy":
+            front = "apply_"      # LazyStackedTensorDict.apply_ is another function (members' _fast_apply): checked apart
     o["checked"] = (variant % 2 == 0) if front == "fast" else False
     S2 = copy.deepcopy(S)
     locked = (variant // 2) % 2 == 1 if kindname != "params" else True
@@ -441,14 +444,15 @@ def model_line(case, ran=None):
     if kindname == "alias":
         return None
     if kindname == "lazy":
-        if case["threads"] or (o["bs"] is not None and case["out"] is None):
-            return None
+        has_out_fwd = case["out"] is not None and case["front"] != "named_apply"
+        if case["threads"] or (o["bs"] is not None and not has_out_fwd) or o["names"] != "absent":
+            return None                    # (names= on a lazy stack goes through the lazy names setter: not modelled)
         om = dict(o, bs=None)              # batch_size= is not forwarded to the members
         return sx([Sym("lazy"), opts_sx(om), [tree_sx(m) for m in case["members"]],
                    [[tree_sx(m) for m in ms] for ms in case["others_members"]],
-                   Sym("none") if case["out"] is None else [Sym("some"), [tree_sx(m) for m in case["out_members"]]],
+                   Sym("none") if not has_out_fwd else [Sym("some"), [tree_sx(m) for m in case["out_members"]]],
                    names_sx(o), o["con"], model_nones(case, case["members"]),
-                   Sym("absent") if o["bs"] is None else list(o["bs"])])
+                   Sym("absent") if o["bs"] is None else list(o["bs"]), o["propagate"]])
     if kindname == "tc" and case["front"] == "fast":
         o = dict(o, fe=False)              # tensorclass._fast_apply forces filter_empty=False
     mode = "mt" if case["threads"] else "st"
@@ -635,6 +639,8 @@ def lazy_reference(case):
         if given:
             return ("gray", "inplace with an empty / None override on a lazy stack")
     if o["bs"] is not None and not has_out:
+        if o["con"] or o["leaf_node"] or o["names"] != "absent":
+            return ("gray", "stacked view of a lazy stack with call_on_nested / is_leaf over collections / names=")
         c, tens = dense_view(case)
         old = REF.TENS[0]
         REF.TENS[0] = tens
